@@ -119,6 +119,9 @@ class IsoDepInitiator(object):
                     if len(data) == 0:
                         raise nfc.clf.TransmissionError
                     if data[0] == 0xA2 | (~self.pni & 1):
+                        if i > self.n_retry_nak + 1:
+                            log.error("ISO-DEP too many retransmit requests")
+                            raise Type4TagCommandError(nfc.tag.PROTOCOL_ERROR)
                         log.debug("ISO-DEP retransmit after ack")
                         data = pfb + command[offset:offset+self.miu]
                         continue
